@@ -339,7 +339,8 @@ def inline_single_callers(modules: dict, max_sites: int = 1, max_body: int = 12,
 
 def _inline_one(name, hm, hcls, h, cm, call, dry):
     if True:
-        if cm is not hm or h.decorator_list or isinstance(h, ast.AsyncFunctionDef):
+        static = len(h.decorator_list) == 1 and isinstance(h.decorator_list[0], ast.Name) and h.decorator_list[0].id == "staticmethod"
+        if cm is not hm or (h.decorator_list and not static) or isinstance(h, ast.AsyncFunctionDef):
             return None
         if any(isinstance(x, (ast.Yield, ast.YieldFrom, ast.Await, ast.Global, ast.Nonlocal)) for x in ast.walk(h)):
             return None
@@ -368,7 +369,7 @@ def _inline_one(name, hm, hcls, h, cm, call, dry):
         if a.posonlyargs or a.kwonlyargs or a.vararg or a.kwarg:
             return None
         ps = [x.arg for x in a.args]
-        if is_method:
+        if is_method and not static:
             if not ps or ps[0] not in ("self", "cls"):
                 return None
             ps = ps[1:]
@@ -621,3 +622,62 @@ def _clone_target(t):
 
 def _clone_expr(e):
     return ast.parse(ast.unparse(e), mode="eval").body
+
+
+# ---------------------------------------------------------------------------------------------------------------------
+# N6  module-level literal constants the rules have never heard of
+# ---------------------------------------------------------------------------------------------------------------------
+def expand_module_constants(modules: dict, known=()) -> list:
+    """N6: a module-level name bound exactly once, at module top level, to a literal (str / number / bool / None, or a
+    tuple of such), never declared global and never re-bound in a function, and that the rule vocabulary does not
+    mention, is replaced by the literal wherever a function of the same module reads it ("move a literal to a module
+    constant", read backwards).  Returns [(module, name)]."""
+    done = []
+
+    def literal(v):
+        if isinstance(v, ast.Constant):
+            return True
+        if isinstance(v, ast.UnaryOp) and isinstance(v.op, (ast.USub, ast.UAdd)) and isinstance(v.operand, ast.Constant):
+            return True
+        return isinstance(v, ast.Tuple) and all(literal(e) for e in v.elts)
+    for m in modules.values():
+        binds = {}
+        for st in m.tree.body:
+            if isinstance(st, ast.Assign) and len(st.targets) == 1 and isinstance(st.targets[0], ast.Name):
+                binds.setdefault(st.targets[0].id, []).append(st.value)
+            elif isinstance(st, ast.AnnAssign) and isinstance(st.target, ast.Name) and st.value is not None:
+                binds.setdefault(st.target.id, []).append(st.value)
+        cands = {n: vs[0] for n, vs in binds.items() if len(vs) == 1 and literal(vs[0]) and n not in known and not n.startswith("__")}
+        if not cands:
+            continue
+        # any other binding of the name anywhere in the module disqualifies it
+        for x in ast.walk(m.tree):
+            if isinstance(x, (ast.Global, ast.Nonlocal)):
+                for n in x.names:
+                    cands.pop(n, None)
+            elif isinstance(x, ast.Name) and isinstance(x.ctx, (ast.Store, ast.Del)) and x.id in cands:
+                par_is_module_bind = any(isinstance(st, (ast.Assign, ast.AnnAssign)) and any(t is x for t in (st.targets if isinstance(st, ast.Assign) else [st.target])) for st in m.tree.body)
+                if not par_is_module_bind:
+                    cands.pop(x.id, None)
+            elif isinstance(x, ast.arg) and x.arg in cands:
+                cands.pop(x.arg, None)
+            elif isinstance(x, (ast.Import, ast.ImportFrom)):
+                for al in x.names:
+                    cands.pop((al.asname or al.name).split(".")[0], None)
+        if not cands:
+            continue
+
+        class T(ast.NodeTransformer):
+            def visit_Name(self, n):
+                if isinstance(n.ctx, ast.Load) and n.id in cands:
+                    used.add(n.id)
+                    return ast.copy_location(_clone_expr(cands[n.id]), n)
+                return n
+        used = set()
+        for fn in [n for n in ast.walk(m.tree) if isinstance(n, (ast.FunctionDef, ast.AsyncFunctionDef))]:
+            fn.body = [T().visit(st) for st in fn.body]
+        for n in sorted(used):
+            done.append((m.name, n))
+        if used:
+            ast.fix_missing_locations(m.tree)
+    return done
